@@ -3,7 +3,8 @@ import scopedom
 import usimrun
 
 OBS = 'ObsC07'
-LABELS = {'quick': 'until until_kids until_time until_conn'.split(), 'thorough': 'until until_kids until_time until_conn'.split()}
+LABELS = {'quick': 'until until_kids until_late until_time until_conn'.split(),
+          'thorough': 'until until_kids until_late until_time until_conn'.split()}
 
 
 def run(check):
